@@ -1,3 +1,304 @@
-//! C05 (b) — daemon-level part; filled in together with the daemon fixture.
-use crate::engine::Ctx;
-pub fn run_daemon_part(_ctx: &mut Ctx) {}
+//! C05 (b) — daemon level: sequences of well-typed control messages with adversarial 64-bit field
+//! values sent to a running VhostUserDaemon (Bitmap = BitmapMmapRegion, 3 queues).  Oracle: no
+//! panic in any thread of the daemon (global panic hook; overflow checks and debug assertions on),
+//! no crash of the process (crash isolation), the daemon keeps answering after refusals.
+
+use std::fs::File;
+use std::os::unix::io::AsRawFd;
+
+use proptest::prelude::*;
+use serde::{Deserialize, Serialize};
+use serde_json::json;
+
+use crate::daemon_fx::{new_eventfd, BeCfg, Fx, Sess, VMutex, VRw};
+use crate::engine::{lat16, lat32, lat64, Ctx};
+use crate::fdtrack::memfd;
+use crate::spec::{self, fe};
+
+const PAGE: u64 = 4096;
+
+#[derive(Serialize, Deserialize, Debug, Clone, Hash, PartialEq, Eq)]
+pub struct AdvRegion {
+    pub gpa: u64,
+    /// size class: small (pages) or huge (mapping cannot be established)
+    pub pages: u8,
+    pub huge: Option<u64>,
+    pub ua: u64,
+    pub off_pages: u8,
+}
+
+#[derive(Serialize, Deserialize, Debug, Clone, Hash, PartialEq, Eq)]
+pub enum TypedMsg {
+    SetOwner,
+    ResetOwner,
+    ResetDevice,
+    SetFeatures(u64),
+    SetProtocolFeatures(u64),
+    SetMemTable(Vec<AdvRegion>),
+    AddMemReg(AdvRegion),
+    RemMemReg(AdvRegion),
+    SetVringNum(u32, u32),
+    SetVringBase(u32, u32),
+    SetVringAddr { index: u32, log: bool, desc: u64, used: u64, avail: u64, logaddr: u64 },
+    GetVringBase(u32),
+    SetVringKick(u8, bool),
+    SetVringCall(u8, bool),
+    SetVringErr(u8, bool),
+    SetVringEnable(u32, bool),
+    GetConfig(u32, u32, u32),
+    SetConfig(u32, u32, u32),
+    SetLogBase { size: u64, off_pages: u8, huge_off: Option<u64> },
+    GetQueueNum,
+    GetMaxMemSlots,
+    GetInflight(u64, u64, u16, u16),
+    Kick(u8),
+}
+
+#[derive(Serialize, Deserialize, Debug, Clone, Hash, PartialEq, Eq)]
+pub struct DaemonCase {
+    pub rwlock: bool,
+    pub msgs: Vec<TypedMsg>,
+}
+
+fn fit(base: u64, size: u64) -> u64 {
+    if (base as u128 + size as u128) < (1u128 << 64) {
+        base
+    } else {
+        u64::MAX - size
+    }
+}
+
+impl AdvRegion {
+    /// (gpa, size, ua, off) satisfying the region rules, and the length the backing file needs
+    fn resolve(&self) -> ([u64; 4], Option<u64>) {
+        match self.huge {
+            // sizes the kernel cannot map: no file length can back them
+            Some(h) => {
+                let size = h.max(1 << 48);
+                ([fit(self.gpa, size), size, fit(self.ua, size), fit(self.off_pages as u64 * PAGE, size)], None)
+            }
+            None => {
+                let size = (self.pages as u64 % 64 + 1) * PAGE;
+                let off = self.off_pages as u64 % 8 * PAGE;
+                ([fit(self.gpa, size), size, fit(self.ua, size), off], Some(off + size))
+            }
+        }
+    }
+}
+
+fn run_generic<V: vhost_user_backend::VringT<crate::daemon_fx::GM> + Clone + Send + Sync + 'static>(ctx: &mut Ctx, c: &DaemonCase) -> Result<(), String> {
+    let fx: Fx<V> = Fx::new(BeCfg { num_queues: 3, ..Default::default() })?;
+    let mut s = Sess::open(fx, None)?;
+    let mut keep: Vec<File> = Vec::new();
+    let mut kicks: Vec<vmm_sys_util::eventfd::EventFd> = Vec::new();
+    let mut refused = 0u32;
+    for (i, m) in c.msgs.iter().enumerate() {
+        let desc = format!("msg #{i} {m:?}");
+        let r: Result<bool, String> = match m {
+            TypedMsg::SetOwner => s.acked(fe::SET_OWNER, &[], &[]),
+            TypedMsg::ResetOwner => s.acked(fe::RESET_OWNER, &[], &[]),
+            TypedMsg::ResetDevice => s.acked(fe::RESET_DEVICE, &[], &[]),
+            TypedMsg::SetFeatures(v) => s.acked(fe::SET_FEATURES, &spec::b_u64(*v), &[]),
+            TypedMsg::SetProtocolFeatures(v) => {
+                // REPLY_ACK stays on so that the harness keeps getting acknowledgements
+                s.acked(fe::SET_PROTOCOL_FEATURES, &spec::b_u64(*v | 8 | (1 << 15) | (1 << 1)), &[])
+            }
+            TypedMsg::SetMemTable(rs) => {
+                let mut body = Vec::new();
+                let mut fds = Vec::new();
+                for r in rs {
+                    let (f4, flen) = r.resolve();
+                    keep.push(memfd(flen.unwrap_or(PAGE)));
+                    fds.push(keep.last().unwrap().as_raw_fd());
+                    body.push(f4);
+                }
+                s.acked(fe::SET_MEM_TABLE, &spec::b_mem_table(&body), &fds)
+            }
+            TypedMsg::AddMemReg(r) => {
+                let (f4, flen) = r.resolve();
+                keep.push(memfd(flen.unwrap_or(PAGE)));
+                let fd = keep.last().unwrap().as_raw_fd();
+                s.acked(fe::ADD_MEM_REG, &spec::b_single_region(&f4), &[fd])
+            }
+            TypedMsg::RemMemReg(r) => s.acked(fe::REM_MEM_REG, &spec::b_single_region(&r.resolve().0), &[]),
+            TypedMsg::SetVringNum(i, n) => s.acked(fe::SET_VRING_NUM, &spec::b_vring_state(*i, *n), &[]),
+            TypedMsg::SetVringBase(i, n) => s.acked(fe::SET_VRING_BASE, &spec::b_vring_state(*i, *n), &[]),
+            TypedMsg::SetVringAddr { index, log, desc: d, used, avail, logaddr } => {
+                s.acked(fe::SET_VRING_ADDR, &spec::b_vring_addr(*index, *log as u32, d & !0xf, used & !0x3, avail & !0x1, *logaddr), &[])
+            }
+            TypedMsg::GetVringBase(i) => s.get(fe::GET_VRING_BASE, &spec::b_vring_state(*i, 0), &[]).map(|o| o.is_some()),
+            TypedMsg::SetVringKick(i, some) | TypedMsg::SetVringCall(i, some) | TypedMsg::SetVringErr(i, some) => {
+                let code = match m {
+                    TypedMsg::SetVringKick(..) => fe::SET_VRING_KICK,
+                    TypedMsg::SetVringCall(..) => fe::SET_VRING_CALL,
+                    _ => fe::SET_VRING_ERR,
+                };
+                if *some {
+                    let e = new_eventfd();
+                    let r = s.acked(code, &spec::b_u64(*i as u64), &[e.as_raw_fd()]);
+                    if code == fe::SET_VRING_KICK {
+                        kicks.push(e);
+                    }
+                    r
+                } else {
+                    s.acked(code, &spec::b_u64(*i as u64 | 0x100), &[])
+                }
+            }
+            TypedMsg::SetVringEnable(i, on) => s.acked(fe::SET_VRING_ENABLE, &spec::b_vring_state(*i, *on as u32), &[]),
+            TypedMsg::GetConfig(off, size, flags) => {
+                let (off, size) = (*off % 0x1000, (*size % 0x1000).max(1));
+                let size = size.min(0x1000 - off).min(4084);
+                s.get(fe::GET_CONFIG, &spec::b_config(off, size, *flags % 4, &vec![0u8; size as usize]), &[]).map(|o| o.is_some())
+            }
+            TypedMsg::SetConfig(off, size, flags) => {
+                let (off, size) = (*off % 0x1000, (*size % 0x1000).max(1));
+                let size = size.min(0x1000 - off).min(4084);
+                s.acked(fe::SET_CONFIG, &spec::b_config(off, size, *flags % 4, &vec![0x42u8; size as usize]), &[])
+            }
+            TypedMsg::SetLogBase { size, off_pages, huge_off } => {
+                // small windows are backed by a file of that length; huge ones cannot be mapped
+                let (size, off, flen) = match huge_off {
+                    Some(h) => ((*size).max(1 << 48), fit(*h, (*size).max(1 << 48)), PAGE),
+                    None => {
+                        let sz = (*size % (64 * PAGE)).max(1);
+                        let off = *off_pages as u64 % 4 * PAGE;
+                        (sz, off, (off + sz + PAGE - 1) / PAGE * PAGE)
+                    }
+                };
+                keep.push(memfd(flen));
+                let fd = keep.last().unwrap().as_raw_fd();
+                s.get(fe::SET_LOG_BASE, &spec::b_log(size, off), &[fd]).map(|o| o.is_some())
+            }
+            TypedMsg::GetQueueNum => s.get(fe::GET_QUEUE_NUM, &[], &[]).map(|o| o.is_some()),
+            TypedMsg::GetMaxMemSlots => s.get(fe::GET_MAX_MEM_SLOTS, &[], &[]).map(|o| o.is_some()),
+            TypedMsg::GetInflight(a, b, nq, qs) => s.get(fe::GET_INFLIGHT_FD, &spec::b_inflight(*a, *b, (*nq).max(1), (*qs).max(1)), &[]).map(|o| o.is_some()),
+            TypedMsg::Kick(k) => {
+                if !kicks.is_empty() {
+                    let _ = kicks[*k as usize % kicks.len()].write(1);
+                }
+                Ok(true)
+            }
+        };
+        match r {
+            Ok(true) => ctx.class("daemon_msg_accepted"),
+            Ok(false) => {
+                refused += 1;
+                ctx.class("daemon_msg_refused");
+            }
+            Err(e) => {
+                let panics = crate::engine_panic::take();
+                if !panics.is_empty() {
+                    return Err(format!("{desc}: panic in the daemon: {}", panics[0]));
+                }
+                return Err(format!("{desc}: daemon stopped answering: {e}"));
+            }
+        }
+        let panics = crate::engine_panic::take();
+        if !panics.is_empty() {
+            return Err(format!("{desc}: panic in the daemon: {}", panics[0]));
+        }
+    }
+    // worker liveness is not part of C05; it is only counted
+    if s.fx.barrier().is_err() {
+        ctx.class("daemon_worker_not_answering_at_end");
+    }
+    ctx.class("daemon_sequence");
+    if refused > 0 && c.msgs.len() >= 3 {
+        ctx.nontrivial(&("daemon", c.rwlock, &c.msgs));
+    }
+    ctx.sample(|| json!({"daemon_sequence": c.msgs, "refused": refused}));
+    s.close();
+    let panics = crate::engine_panic::take();
+    if !panics.is_empty() {
+        return Err(format!("panic in the daemon during teardown: {}", panics[0]));
+    }
+    Ok(())
+}
+
+fn adv_region() -> impl Strategy<Value = AdvRegion> {
+    (lat64(), any::<u8>(), prop_oneof![6 => Just(None), 1 => lat64().prop_map(Some)], lat64(), any::<u8>())
+        .prop_map(|(gpa, pages, huge, ua, off_pages)| AdvRegion { gpa, pages, huge, ua, off_pages })
+}
+
+fn small_or_big_index() -> impl Strategy<Value = u32> {
+    prop_oneof![4 => 0u32..3, 1 => Just(3u32), 1 => Just(255u32), 1 => lat32()]
+}
+
+fn msg_strategy() -> impl Strategy<Value = TypedMsg> {
+    prop_oneof![
+        1 => Just(TypedMsg::SetOwner),
+        1 => Just(TypedMsg::ResetOwner),
+        1 => Just(TypedMsg::ResetDevice),
+        2 => lat64().prop_map(TypedMsg::SetFeatures),
+        1 => prop_oneof![Just(0x1_7000_0000u64), Just(0x4000_0000u64), Just(0u64)].prop_map(TypedMsg::SetFeatures),
+        1 => lat64().prop_map(TypedMsg::SetProtocolFeatures),
+        3 => proptest::collection::vec(adv_region(), 1..=4).prop_map(TypedMsg::SetMemTable),
+        3 => adv_region().prop_map(TypedMsg::AddMemReg),
+        2 => adv_region().prop_map(TypedMsg::RemMemReg),
+        2 => (small_or_big_index(), prop_oneof![lat32(), (0u32..=65535)]).prop_map(|(i, n)| TypedMsg::SetVringNum(i, n)),
+        2 => (small_or_big_index(), lat32()).prop_map(|(i, n)| TypedMsg::SetVringBase(i, n)),
+        4 => (small_or_big_index(), any::<bool>(), lat64(), lat64(), lat64(), lat64())
+            .prop_map(|(index, log, desc, used, avail, logaddr)| TypedMsg::SetVringAddr { index, log, desc, used, avail, logaddr }),
+        2 => small_or_big_index().prop_map(TypedMsg::GetVringBase),
+        2 => (any::<u8>(), any::<bool>()).prop_map(|(i, s)| TypedMsg::SetVringKick(i % 5, s)),
+        1 => (any::<u8>(), any::<bool>()).prop_map(|(i, s)| TypedMsg::SetVringKick(i, s)),
+        1 => (any::<u8>(), any::<bool>()).prop_map(|(i, s)| TypedMsg::SetVringCall(i, s)),
+        1 => (any::<u8>(), any::<bool>()).prop_map(|(i, s)| TypedMsg::SetVringErr(i, s)),
+        2 => (small_or_big_index(), any::<bool>()).prop_map(|(i, on)| TypedMsg::SetVringEnable(i, on)),
+        1 => (lat32(), lat32(), any::<u32>()).prop_map(|(a, b, c)| TypedMsg::GetConfig(a, b, c)),
+        1 => (lat32(), lat32(), any::<u32>()).prop_map(|(a, b, c)| TypedMsg::SetConfig(a, b, c)),
+        2 => (lat64(), any::<u8>(), prop_oneof![4 => Just(None), 1 => lat64().prop_map(Some)]).prop_map(|(size, off_pages, huge_off)| TypedMsg::SetLogBase { size, off_pages, huge_off }),
+        1 => Just(TypedMsg::GetQueueNum),
+        1 => Just(TypedMsg::GetMaxMemSlots),
+        1 => (lat64(), lat64(), lat16(), lat16()).prop_map(|(a, b, c, d)| TypedMsg::GetInflight(a, b, c, d)),
+        2 => any::<u8>().prop_map(TypedMsg::Kick),
+    ]
+}
+
+/// regions that really get mapped and translated: user addresses and ring addresses around them
+fn related_sequence() -> impl Strategy<Value = Vec<TypedMsg>> {
+    (lat64(), 1u8..16, lat64(), proptest::collection::vec((0u8..6, -2i64..3, 0u32..4), 1..8)).prop_map(|(gpa, pages, ua, probes)| {
+        let r = AdvRegion { gpa, pages, huge: None, ua, off_pages: 0 };
+        let (f4, _) = r.resolve();
+        let mut v = vec![TypedMsg::SetFeatures(0x1_7000_0000), TypedMsg::SetMemTable(vec![r.clone()])];
+        for (edge, d, idx) in probes {
+            let base = match edge {
+                0 => f4[2],
+                1 => f4[2].wrapping_add(f4[1]),
+                2 => f4[2].wrapping_add(f4[1] / 2),
+                3 => 0,
+                4 => u64::MAX,
+                _ => f4[0],
+            };
+            let a = base.wrapping_add((d * 16) as u64);
+            v.push(TypedMsg::SetVringAddr { index: idx, log: false, desc: a, used: f4[2], avail: f4[2].wrapping_add(64), logaddr: 0 });
+            v.push(TypedMsg::SetVringAddr { index: idx, log: false, desc: f4[2], used: a, avail: a, logaddr: u64::MAX });
+        }
+        v.push(TypedMsg::AddMemReg(AdvRegion { gpa: f4[0].wrapping_add(f4[1]), pages: 3, huge: None, ua: f4[2].wrapping_add(f4[1]), off_pages: 1 }));
+        v.push(TypedMsg::SetLogBase { size: 1, off_pages: 0, huge_off: None });
+        v.push(TypedMsg::SetLogBase { size: 64 * PAGE - 1, off_pages: 1, huge_off: None });
+        v.push(TypedMsg::RemMemReg(r));
+        v
+    })
+}
+
+pub fn run_daemon_case(ctx: &mut Ctx, c: &DaemonCase) -> Result<(), String> {
+    if c.rwlock {
+        run_generic::<VRw>(ctx, c)
+    } else {
+        run_generic::<VMutex>(ctx, c)
+    }
+}
+
+pub fn run_daemon_part(ctx: &mut Ctx) {
+    let n = ctx.tier.pick(3000u32, 60_000u32);
+    let strat = (
+        any::<bool>(),
+        prop_oneof![
+            3 => proptest::collection::vec(msg_strategy(), 1..30),
+            1 => related_sequence(),
+        ],
+    )
+        .prop_map(|(rwlock, msgs)| DaemonCase { rwlock, msgs });
+    ctx.prop_check("daemon_sequences", n, strat, |ctx, c| run_daemon_case(ctx, c));
+}
